@@ -194,12 +194,24 @@ macro_rules! numtraits {
         impl<const N: usize> Integer for $BInt<N> {
             #[inline]
             fn div_floor(&self, other: &Self) -> Self {
-                *self / *other
+                // Algorithm from [Daan Leijen. _Division and Modulus for Computer Scientists_, December 2001]
+                let (d, r) = self.div_rem(other);
+                if !r.is_zero() && r.is_negative() != other.is_negative() {
+                    d - Self::ONE
+                } else {
+                    d
+                }
             }
 
             #[inline]
             fn mod_floor(&self, other: &Self) -> Self {
-                *self % *other
+                // Algorithm from [Daan Leijen. _Division and Modulus for Computer Scientists_, December 2001]
+                let r = *self % *other;
+                if !r.is_zero() && r.is_negative() != other.is_negative() {
+                    r + *other
+                } else {
+                    r
+                }
             }
 
             #[inline]
@@ -240,7 +252,7 @@ macro_rules! numtraits {
 
             #[inline]
             fn div_rem(&self, other: &Self) -> (Self, Self) {
-                (self.div_floor(other), self.mod_floor(other))
+                (*self / *other, *self % *other)
             }
         }
 
